@@ -65,8 +65,12 @@ class SGen:
             return f if f is not None else self.int_lit(neg_ok)
         if r < 0.75:
             op = self.r.choice(["add", "sub", "mul", "div", "add", "sub", "mul"])
+            if self.r.random() < 0.06:
+                op = self.r.choice(["lshift", "rshift"])       # shifts by a small constant, mixed with the other operators
             left = self.num(srcs, d - 1, ub)
             right = self.num(srcs, d - 1, ub, neg_ok=(op != "sub"))
+            if op in ("lshift", "rshift"):
+                right = ["vali", self.r.choice([0, 1, 2]), None]
             # shapes owned by C02 are kept out: a right operand starting with a minus sign under "-"
             if op == "sub" and self._starts_minus(right):
                 right = self.int_lit(False)
@@ -81,6 +85,11 @@ class SGen:
         if r < 0.93:
             return ["case", [[self.crit(srcs, d - 1, ub), self.num(srcs, d - 1, ub)]],
                     self.num(srcs, d - 1, ub) if self.r.random() < 0.6 else None, None]
+        if neg_ok and d > 0 and self.r.random() < 0.5:
+            # unary minus over a compound (parenthesised since /repo 33fa91c), shifts included: -(a>>1) is not -a>>1
+            op = self.r.choice(["add", "sub", "mul", "div", "lshift", "rshift", "rshift"])
+            right = self.r.choice([["vali", 1, None], ["vali", 2, None]]) if op in ("lshift", "rshift") else self.num(srcs, 0, ub, neg_ok=False)
+            return ["neg", ["arith", op, self.num(srcs, 0, ub, neg_ok=False), right, None]]
         f = self.sub_operand() or self.field(srcs, "int", ub)
         return ["neg", f] if f is not None and neg_ok else self.int_lit(neg_ok)
 
@@ -304,11 +313,14 @@ class SGen:
         for jn in range(njoin):
             if withs and withs[0][0] not in [x.spec[1] for x in srcs if x.spec[0] == "a"] and self.r.random() < 0.4:
                 src = Src(["a", withs[0][0]], wcols)
-            elif self.r.random() < 0.08 and srcs[0].tref is not None and srcs[0].tref[2] is None and srcs[0].tref[1] == [] \
-                    and (srcs[0].tref[0] + "2") not in used and not any(j[1] == ["t", srcs[0].tref] for j in q["joins"]):
-                # the same un-aliased table again: pypika writes the alias <name>2 onto it
+            elif self.r.random() < 0.1 and srcs[0].tref is not None and srcs[0].tref[2] is None and srcs[0].tref[1] == []:
+                # the same un-aliased table again: pypika writes the first free numbered alias <name>2, <name>3, ... onto it
+                # (free = carried by no other source, be it as alias or as the plain name of a table such as t2)
                 src = Src(["t", list(srcs[0].tref)], dict(srcs[0].cols), tref=None)
-                used.add(srcs[0].tref[0] + "2")
+                n = 2
+                while srcs[0].tref[0] + str(n) in used:
+                    n += 1
+                used.add(srcs[0].tref[0] + str(n))
             else:
                 src = self.source(depth, used)
             r = self.r.random()
@@ -615,6 +627,17 @@ def walk_terms(t, f):
             walk_terms(x, f)
 
 
+def item_terms(it):
+    """the terms an item holds directly (sub-statements are visited through all_items)"""
+    if it[0] == "t":
+        return [it[1]]
+    if it[0] == "in":
+        return [it[1]]
+    if it[0] == "cmp":
+        return [it[2]]
+    return []
+
+
 def has_window(s):
     found = []
 
@@ -622,8 +645,8 @@ def has_window(s):
         if t[0] == "win":
             found.append(1)
     for it in all_items(s):
-        if it[0] == "t":
-            walk_terms(it[1], chk)
+        for t in item_terms(it):
+            walk_terms(t, chk)
     return bool(found)
 
 
